@@ -46,7 +46,7 @@ PLANS = {
         "thorough": [("c07_h%d_t5" % h, BOTH + ("cli",), session_check.READ_ACTIONS, None, None, None) for h in range(0, 4)],
     },
     "C08": {
-        "quick": [("c08_hist2", ("delimited",), RW, 6000, None, None)],
+        "quick": [("c08_hist2", ("delimited",), RW, 4000, None, None)],
         "thorough": [("c08_hist2", BOTH, RW, None, None, None),
                      ("c08_hist4sim", ("delimited",), RW, 60000, 3000, 60),
                      ("c08_hist3", (), RW, 0, None, None)],
@@ -97,6 +97,15 @@ def run_plan(property_id, tier, report, extra=None, rule=None):
             raise core.MachineryError("expected-counterexample configuration %s found no counterexample (%s)" % (name, what))
         report.notes.setdefault("expected_counterexamples", []).append(
             {"cfg": cfg, "deviation": what, "violated": result.violated, "states": result.generated})
+    # code -> spec: executions recorded through the hooks are validated against SessionTrace.tla
+    from harness import trace_drivers
+    if first_vectors:
+        trace_drivers.sample_and_validate(report, first_vectors, 300 if tier == "quick" else 4000,
+                                          "sample of the TLC-generated histories replayed with the hooks on",
+                                          demo=not report.violations)
+    if property_id == "C08":
+        trace_drivers.random_programs(report, 100 if tier == "quick" else 3000)
+        trace_drivers.test_suite(report)
     if extra is not None:
         extra(report, tier)
     if not report.violations and first_vectors:
